@@ -15,6 +15,7 @@ import re
 import subprocess
 import sys
 import time
+import threading
 import tomllib
 
 VERIF = os.path.dirname(os.path.dirname(os.path.abspath(__file__)))
@@ -33,7 +34,7 @@ class ToolTrouble(Exception):
 def run_vx(items):
     os.makedirs(OUT, exist_ok=True)
     job = {"repo": REPO, "items": items}
-    path = os.path.join(OUT, f"vxjob.{os.getpid()}.json")
+    path = os.path.join(OUT, f"vxjob.{os.getpid()}.{threading.get_ident()}.{time.time_ns()}.json")
     with open(path, "w") as f:
         json.dump(job, f)
     if not os.path.exists(VX):
@@ -218,22 +219,29 @@ def emit_fn(item, contract, mode="verify", vacuity=False, extra_auto=None, inden
     return "\n".join(lines) + "\n"
 
 
-_VAC_IDS = {}
+_TL = threading.local()
+
+
+def _vac_ids():
+    if not hasattr(_TL, "ids"):
+        _TL.ids = {}
+    return _TL.ids
 
 
 def _vac_id(key, anchor):
+    ids = _vac_ids()
     k = (key, anchor)
-    if k not in _VAC_IDS:
-        _VAC_IDS[k] = len(_VAC_IDS)
-    return _VAC_IDS[k]
+    if k not in ids:
+        ids[k] = len(ids)
+    return ids[k]
 
 
 def vac_points():
-    return dict(_VAC_IDS)
+    return dict(_vac_ids())
 
 
 def reset_vac():
-    _VAC_IDS.clear()
+    _vac_ids().clear()
 
 
 VAC_PRELUDE = """
